@@ -71,6 +71,7 @@ type HarnessResult struct {
 	WallS      float64
 	Bounds     map[string]int
 	Unchecked  int
+	Truncated  int
 	Accesses   int
 }
 
